@@ -2,6 +2,24 @@
 //! Channels are single-threaded FIFO queues whose handles never run destructors
 //! that matter to the code under verification; everything that needs a runtime
 //! (spawn, sleep, select!) is *not modelled* and panics if reached.
+pub use tokio_macros_model::test;
+
+/// Minimal executor of the model: polls once with a no-op waker; the model's futures never suspend
+/// unless a queue is full / empty, which is a pruned path under Kani and a panic natively.
+pub fn model_block_on<F: core::future::Future>(f: F) -> F::Output {
+    let mut f = core::pin::pin!(f);
+    let waker = core::task::Waker::noop();
+    let mut cx = core::task::Context::from_waker(&waker);
+    match f.as_mut().poll(&mut cx) {
+        core::task::Poll::Ready(v) => v,
+        core::task::Poll::Pending => {
+            #[cfg(kani)]
+            kani::assume(false);
+            panic!("tokio model: future is pending (full/empty model queue)")
+        }
+    }
+}
+
 pub mod sync {
     pub mod mpsc {
         use std::cell::RefCell;
